@@ -41,6 +41,7 @@ def run(ck, fb):
     r05c(ck, fb)
     r05d(ck, fb)
     r05e(ck, fb)
+    ck.borrow('rules.c08', {'R08b': 'R05f'}, 'membership/addresses of an installed snapshot reach the index file')
 
 
 def r05a(ck, fb):
@@ -156,7 +157,7 @@ def r05b(ck, fb):
     ck.require(len(rd) == 1 and len(dec) == 1 and util.awaited(b, rd[0]), 'R05b', 'RaftIndexInnerManager::init:read-branch', b.where(),
                'read branch does not decode the stored record')
     agg = b.aggregates(r'raftindex::RaftIndexInnerManager$')
-    ck.require(len(agg) == 1, 'R05b', 'RaftIndexInnerManager::init:constructs', b.where(), 'constructor not found')
+    ck.require(len(agg) >= 1, 'R05b', 'RaftIndexInnerManager::init:constructs', b.where(), 'constructor not found')
     if agg and dec:
         i, j, st = agg[0]
         rv = st['rv']
@@ -197,7 +198,7 @@ def r05c(ck, fb):
     b = ck.body(IM + 'add_node_addr', 'R05c')
     if b:
         ins = util.mut_calls_on_field(b, 'node_addrs', r'HashMap::<K, V, S, A>::insert$')
-        ck.require(len(ins) == 1, 'R05c', 'add_node_addr:insert', b.where(), 'add_node_addr does not insert into node_addrs')
+        ck.require(len(ins) >= 1, 'R05c', 'add_node_addr:insert', b.where(), 'add_node_addr does not insert into node_addrs')
 
 
 def r05d(ck, fb):
@@ -210,7 +211,7 @@ def r05d(ck, fb):
         for f in ('current_term', 'voted_for', 'member', 'member_after_consensus'):
             ck.require(f in rf, 'R05d', 'get_initial_state:reads:' + f, b.where(), 'get_initial_state no longer reads %s from the catalogue' % f)
         hs = b.aggregates(r'async_raft_ext::storage::HardState$')
-        ck.require(len(hs) == 1, 'R05d', 'get_initial_state:HardState', b.where(), 'HardState not built')
+        ck.require(len(hs) >= 1, 'R05d', 'get_initial_state:HardState', b.where(), 'HardState not built')
         if hs:
             rv = hs[0][2]['rv']
             t1 = Taint(b, place_src=field_place_src('current_term'))
@@ -222,11 +223,11 @@ def r05d(ck, fb):
     m = ck.main(FS + 'get_membership_config', 'R05d')
     if m:
         sd = util.sends(m, r'RaftIndexRequest$', 'LoadMember')
-        ck.require(len(sd) == 1, 'R05d', 'get_membership_config:LoadMember', m.where(), 'membership is not loaded from the index manager')
+        ck.require(len(sd) >= 1, 'R05d', 'get_membership_config:LoadMember', m.where(), 'membership is not loaded from the index manager')
     h = fb.bodies.get(HANDLER)
     if h:
         ms = h.aggregates(r'raftindex::RaftIndexResponse$', 'MemberShip')
-        ck.require(len(ms) == 1, 'R05d', 'LoadMember:answers', h.where(), 'LoadMember answer not found')
+        ck.require(len(ms) >= 1, 'R05d', 'LoadMember:answers', h.where(), 'LoadMember answer not found')
         if ms:
             rv = ms[0][2]['rv']
             for f, src in (('member', 'member'), ('member_after_consensus', 'member_after_consensus'), ('node_addrs', 'node_addrs')):
@@ -242,7 +243,7 @@ def r05d(ck, fb):
         rf = util.read_fields(enc, r'RaftIndexDto$')
         ck.require(fields <= rf, 'R05d', 'to_record_do:covers', enc.where(), 'to_record_do does not encode %s' % sorted(fields - rf), sorted(rf))
         agg = enc.aggregates(r'filestore::log::RaftIndex$')
-        ck.require(len(agg) == 1, 'R05d', 'to_record_do:record', enc.where(), 'record aggregate not found')
+        ck.require(len(agg) >= 1, 'R05d', 'to_record_do:record', enc.where(), 'record aggregate not found')
         if agg:
             rv = agg[0][2]['rv']
             for f in ('current_term', 'voted_for'):
@@ -250,7 +251,7 @@ def r05d(ck, fb):
                     t = Taint(enc, place_src=field_place_src(f))
                     ck.require(t.op_tainted(rv['ops'][rv['fields'].index(f)]), 'R05d', 'to_record_do:%s' % f, enc.where(), 'record.%s is not dto.%s' % (f, f))
     decs = [b for b in fb.impls(r'^std::convert::From$', r'RaftIndexDto$') if 'RaftIndex' in ''.join(b.trait_args)]
-    ck.require(len(decs) == 1, 'R05d', 'From<RaftIndex>:exists', '-', 'decoder From<RaftIndex> for RaftIndexDto not found')
+    ck.require(len(decs) >= 1, 'R05d', 'From<RaftIndex>:exists', '-', 'decoder From<RaftIndex> for RaftIndexDto not found')
     for d in decs:
         ck.analysed(d)
         agg = d.aggregates(r'model::RaftIndexDto$')
